@@ -13,8 +13,8 @@ let rec int_of_pos (p : positive) : int =
 let int_of_n (x : n) : int = match x with N0 -> 0 | Npos p -> int_of_pos p
 
 (* parser *)
-let parse (s : string) : sx =
-  let len = String.length s in
+let parse (s : Stdlib.String.t) : sx =
+  let len = Stdlib.String.length s in
   let pos = ref 0 in
   let rec skip () = if !pos < len && (s.[!pos] = ' ' || s.[!pos] = '\t' || s.[!pos] = '\r') then (incr pos; skip ()) in
   let rec item () : sx =
@@ -29,12 +29,12 @@ let parse (s : string) : sx =
         else if s.[!pos] = ')' then incr pos
         else (acc := item () :: !acc; loop ()) in
       loop ();
-      L (List.rev !acc)
+      L (Stdlib.List.rev !acc)
     end else begin
       let st = !pos in
       while !pos < len && s.[!pos] >= '0' && s.[!pos] <= '9' do incr pos done;
       if !pos = st then failwith "bad char";
-      A (n_of_int (int_of_string (String.sub s st (!pos - st))))
+      A (n_of_int (int_of_string (Stdlib.String.sub s st (!pos - st))))
     end in
   item ()
 
@@ -43,7 +43,7 @@ let rec print (b : Buffer.t) (x : sx) : unit =
   | A n -> Buffer.add_string b (string_of_int (int_of_n n))
   | L l ->
     Buffer.add_char b '(';
-    List.iteri (fun i y -> if i > 0 then Buffer.add_char b ' '; print b y) l;
+    Stdlib.List.iteri (fun i y -> if i > 0 then Buffer.add_char b ' '; print b y) l;
     Buffer.add_char b ')'
 
 let () =
